@@ -92,7 +92,27 @@ class Canon:
         self.stats = {"inlined_calls": 0, "assign_forms": 0, "iterator_loops": 0}
 
     # ------------------------------------------------------------------ P1
-    def inlinable(self, path, allow_ret=False):
+    @staticmethod
+    def _err_type(out):
+        """the error type E of `Result<T, E>` (None for anything else)"""
+        out = str(out or "")
+        if not out.startswith("std::result::Result<") or not out.endswith(">"):
+            return None
+        inner, depth, args, cur = out[len("std::result::Result<"):-1], 0, [], ""
+        for ch in inner:
+            if ch in "<([":
+                depth += 1
+            elif ch in ">)]":
+                depth -= 1
+            if ch == "," and depth == 0:
+                args.append(cur.strip())
+                cur = ""
+            else:
+                cur += ch
+        args.append(cur.strip())
+        return args[1] if len(args) == 2 else None
+
+    def inlinable(self, path, allow_ret=False, allow_try=False):
         f = self.fns.get(path)
         if f is None or f.get("kind") not in ("Fn", "AssocFn"):
             return None
@@ -106,7 +126,7 @@ class Canon:
         if not isinstance(body, dict) or body.get("k") != "Block":
             return None
         for n in _walk(body):
-            if n.get("k") == "Try" or (n.get("k") == "Ret" and not allow_ret):
+            if (n.get("k") == "Try" and not allow_try) or (n.get("k") == "Ret" and not allow_ret):
                 return None
             if n.get("k") == "Ret" and any(True for _ in ()):
                 return None
@@ -127,6 +147,7 @@ class Canon:
                 c = _callee(n)
                 if c and self.inlinable(c) is not None:
                     self.run_fn(self.fns[c], stack + (p,))
+            self.drop_debug_asserts(body)
             self.flatten_blocks(body)
             self.option_searches(body, f)
             self.flatten_blocks(body)
@@ -144,6 +165,7 @@ class Canon:
                         self.inline_block(n, f)
                 self.inline_exprs(body, f)
             self.flatten_blocks(body)
+            self.split_tuple_lets(body)
             self.beta_reduce(body)
             self.assign_forms(body)
             self.match_ints(body)
@@ -441,6 +463,29 @@ class Canon:
                             done = changed = True
             elif k == "Let" and s.get("init") is not None:
                 call, f = self._target(s["init"])
+                i0 = _strip(s["init"])
+                if f is None and i0.get("k") == "Try":
+                    # `let t = helper(..)?;` with a private helper that ends in `Ok(e)` and whose only other exits are `?` of the
+                    # same error type: its `?` are the caller's `?`, its value is e
+                    inner = _strip(i0["e"])
+                    c0 = _callee(inner)
+                    f0 = self.inlinable(c0, allow_try=True) if c0 else None
+                    if f0 is not None and self._err_type(f0.get("output")) is not None and self._err_type(f0.get("output")) == self._err_type(owner.get("output")):
+                        t0 = _strip(f0["body"].get("expr")) if f0["body"].get("expr") is not None else None
+                        if t0 is not None and t0.get("k") == "Call" and str(t0["f"].get("fn", "")).endswith("::Ok") and len(t0.get("args", [])) == 1:
+                            inst = self._instance(f0, inner)
+                            if inst is not None and inst[2] is not None:
+                                pre, st, tail = inst
+                                tl = _strip(tail)
+                                if tl.get("k") == "Call" and str(tl["f"].get("fn", "")).endswith("::Ok"):
+                                    val = tl["args"][0]
+                                    out.extend(pre)
+                                    out.extend(st)
+                                    if not self._merge_alias(pre + st, s["pat"], val, []):
+                                        s["init"] = val
+                                        out.append(s)
+                                    done = changed = True
+                                    self.stats["inlined_try_helpers"] = self.stats.get("inlined_try_helpers", 0) + 1
                 if f is not None:
                     inst = self._instance(f, call)
                     if inst is not None and inst[2] is not None:
@@ -1077,6 +1122,48 @@ class Canon:
                 blk["stmts"] = [s_ for s_ in st if not s_.get("canon_dead")]
 
     # ------------------------------------------------------------------ P7
+    def split_tuple_lets(self, body):
+        """`let (a, b, c) = (x, y, z);` (typically what is left of a tuple-returning helper after inlining)  ->  `let a = x; let b = y; let c = z;`
+        (bindings are identified by id in this representation, so the new names cannot capture anything on the right)."""
+        for blk in [n for n in _walk(body) if n.get("k") == "Block"]:
+            out, changed = [], False
+            for st in blk.get("stmts", []):
+                pat = st.get("pat", {}) if st.get("k") == "Let" else {}
+                init = _strip(st["init"]) if st.get("k") == "Let" and st.get("init") is not None else None
+                if pat.get("k") == "Tuple" and init is not None and init.get("k") == "Tup" and len(init.get("es", [])) == len(pat.get("ps", [])) and \
+                        all(q.get("k") in ("Bind", "Wild") and not q.get("byref") for q in pat["ps"]):
+                    sp = st.get("sp") or [0, 0, 0, 0]
+                    for k_, (q, e_) in enumerate(zip(pat["ps"], init["es"])):
+                        lsp = [sp[0], sp[1] + 0.0001 * k_, sp[2] if len(sp) > 2 else sp[0], sp[3] if len(sp) > 3 else sp[1]]
+                        if q.get("k") == "Bind":
+                            out.append({"k": "Let", "pat": q, "init": e_, "sp": lsp, "canon": "tuple-let"})
+                        else:
+                            out.append({"k": "Semi", "e": e_, "sp": lsp})
+                    changed = True
+                    self.stats["tuple_lets"] = self.stats.get("tuple_lets", 0) + 1
+                else:
+                    out.append(st)
+            if changed:
+                blk["stmts"] = out
+
+    def drop_debug_asserts(self, body):
+        """`debug_assert!(..)`, `debug_assert_eq!(..)`, `debug_assert_ne!(..)` statements are removed: they are compiled out of
+        release builds, so they cannot be what makes a property hold, and as statements they only add a panic path that the
+        refusal / single-path rules would otherwise have to explain."""
+        for blk in [n for n in _walk(body) if n.get("k") == "Block"]:
+            keep = []
+            for st in blk.get("stmts", []):
+                e = st.get("e") if st.get("k") in ("Semi", "Expr") else None
+                if isinstance(e, dict) and str(e.get("m") or "").split("::")[-1].startswith("debug_assert"):
+                    self.stats["debug_asserts_dropped"] = self.stats.get("debug_asserts_dropped", 0) + 1
+                    continue
+                keep.append(st)
+            if len(keep) != len(blk.get("stmts", [])):
+                blk["stmts"] = keep
+            t = blk.get("expr")
+            if isinstance(t, dict) and str(t.get("m") or "").split("::")[-1].startswith("debug_assert"):
+                blk["expr"] = None
+
     def fold_tuple_loops(self, body):
         """`let (a, b) = SRC.fold((i0, i1), |(x, y), P| e);`  ->  `let mut a = i0; let mut b = i1; for P in SRC { <(a, b) = e> }` where the
         tuple-valued body (a tuple, an if/else of tuples, a block ending in one, or the accumulator itself) becomes
